@@ -43,7 +43,7 @@ class C10(pw.P21Check):
     with_inverse = False
 
     def n_plans(self, tier):
-        return 2500 if tier == "quick" else 80000
+        return 8000 if tier == "quick" else 200000
 
     def time_budget(self, tier):
         return 150 if tier == "quick" else 1500
